@@ -2,10 +2,12 @@ import DspVerif.Driver.Proto
 import DspVerif.Model.Dynamics
 /-! driver handlers for C20: Compressor / Limiter / NoiseGate / Agc models at `Float`.
 
-Case layout (all tags): `<tag> <ctor args…> <dec> <nframes> <frame_1> … <frame_nframes>`, a frame being
+Case layout (all tags): `<tag> <ctor args…> <dec> <sel> <nframes> <frame_1> … <frame_nframes>`, a frame being
 `k v1 … vk` (real) or `k re1 im1 …` (complex).  One processor object is constructed and fed the frames
-one `process` call after the other (state persists).  Output per frame: the gain and the output vector,
-decimated: samples `i` with `i % dec = 0` plus the last one.  A throwing constructor prints `ERR`. -/
+one `process` call after the other (state persists).  Output per frame: ONE vector selected by `sel`
+(0 = `gain`, 1 = `out`, 2 = the gain in the log domain: `20·log10` for comp/lim/gate, `ln` for agc — so that
+errors on tiny gains are visible at the line scale), decimated: samples `i` with `i % dec = 0` plus the last
+one.  A throwing constructor prints `ERR`. -/
 namespace Dsp.Driver
 open Dsp.Proto Dsp.Dynamics
 
@@ -40,52 +42,56 @@ def takeFramesC : Nat → List String → Option (List (Array (Cx Float)))
     pure (a :: t)
 
 /-- run frames through a `state → frame → state × gain × out` processor -/
-def runFrames {σ : Type} (dec : Nat) (proc : σ → Array Float → σ × Array Float × Array Float)
+def runFrames {σ : Type} (dec sel : Nat) (db : Bool) (proc : σ → Array Float → σ × Array Float × Array Float)
     (s : σ) (frames : List (Array Float)) : String :=
   let (_, outs) := frames.foldl (fun (acc : σ × List String) f =>
     let r := proc acc.1 f
-    (r.1, (fmtFloatArr (decim dec r.2.2)) :: (fmtFloatArr (decim dec r.2.1)) :: acc.2)) (s, [])
+    let v := if sel == 0 then r.2.1 else if sel == 1 then r.2.2
+             else r.2.1.map (fun g => if db then 20 * Float.log10 g else Float.log g)
+    (r.1, (fmtFloatArr (decim dec v)) :: acc.2)) (s, [])
   String.intercalate " " outs.reverse
 
 def h20 : List String → Option String
-  | "comp" :: fs :: t :: ratio :: w :: ta :: tr :: dec :: nf :: rest => do
+  | "comp" :: fs :: t :: ratio :: w :: ta :: tr :: dec :: sel :: nf :: rest => do
     let fs ← fs.toNat?; let t ← parseF t; let ratio ← parseI ratio; let w ← parseF w
-    let ta ← parseF ta; let tr ← parseF tr; let dec ← dec.toNat?; let nf ← nf.toNat?
+    let ta ← parseF ta; let tr ← parseF tr; let dec ← dec.toNat?; let sel ← sel.toNat?; let nf ← nf.toNat?
     let frames ← takeFrames nf rest
     match Comp.init fs t ratio w ta tr with
     | .error _ => some "ERR"
-    | .ok p => some (runFrames dec (fun g x => processWith (Comp.step p) g x) (0.0 : Float) frames)
-  | "lim" :: fs :: t :: w :: ta :: tr :: dec :: nf :: rest => do
+    | .ok p => some (runFrames dec sel true (fun g x => processWith (Comp.step p) g x) (0.0 : Float) frames)
+  | "lim" :: fs :: t :: w :: ta :: tr :: dec :: sel :: nf :: rest => do
     let fs ← fs.toNat?; let t ← parseF t; let w ← parseF w
-    let ta ← parseF ta; let tr ← parseF tr; let dec ← dec.toNat?; let nf ← nf.toNat?
+    let ta ← parseF ta; let tr ← parseF tr; let dec ← dec.toNat?; let sel ← sel.toNat?; let nf ← nf.toNat?
     let frames ← takeFrames nf rest
     match Lim.init fs t w ta tr with
     | .error _ => some "ERR"
-    | .ok p => some (runFrames dec (fun g x => processWith (Lim.step p) g x) (0.0 : Float) frames)
-  | "gate" :: fs :: t :: ta :: tr :: th :: dec :: nf :: rest => do
+    | .ok p => some (runFrames dec sel true (fun g x => processWith (Lim.step p) g x) (0.0 : Float) frames)
+  | "gate" :: fs :: t :: ta :: tr :: th :: dec :: sel :: nf :: rest => do
     let fs ← fs.toNat?; let t ← parseF t
-    let ta ← parseF ta; let tr ← parseF tr; let th ← parseF th; let dec ← dec.toNat?; let nf ← nf.toNat?
+    let ta ← parseF ta; let tr ← parseF tr; let th ← parseF th; let dec ← dec.toNat?; let sel ← sel.toNat?; let nf ← nf.toNat?
     let frames ← takeFrames nf rest
     match Gate.init fs t ta tr th with
     | .error _ => some "ERR"
-    | .ok p => some (runFrames dec (fun s x => Gate.process p s x) (Gate.init0 : GateState Float) frames)
-  | "agcr" :: tg :: mg :: n :: tri :: tfa :: dec :: nf :: rest => do
+    | .ok p => some (runFrames dec sel true (fun s x => Gate.process p s x) (Gate.init0 : GateState Float) frames)
+  | "agcr" :: tg :: mg :: n :: tri :: tfa :: dec :: sel :: nf :: rest => do
     let tg ← parseF tg; let mg ← parseF mg; let n ← parseI n
-    let tri ← parseF tri; let tfa ← parseF tfa; let dec ← dec.toNat?; let nf ← nf.toNat?
+    let tri ← parseF tri; let tfa ← parseF tfa; let dec ← dec.toNat?; let sel ← sel.toNat?; let nf ← nf.toNat?
     let frames ← takeFrames nf rest
     match Agc.init tg mg n tri tfa with
     | .error _ => some "ERR"
-    | .ok (p, s) => some (runFrames dec (fun s x => Agc.processR p s x) s frames)
-  | "agcc" :: tg :: mg :: n :: tri :: tfa :: dec :: nf :: rest => do
+    | .ok (p, s) => some (runFrames dec sel false (fun s x => Agc.processR p s x) s frames)
+  | "agcc" :: tg :: mg :: n :: tri :: tfa :: dec :: sel :: nf :: rest => do
     let tg ← parseF tg; let mg ← parseF mg; let n ← parseI n
-    let tri ← parseF tri; let tfa ← parseF tfa; let dec ← dec.toNat?; let nf ← nf.toNat?
+    let tri ← parseF tri; let tfa ← parseF tfa; let dec ← dec.toNat?; let sel ← sel.toNat?; let nf ← nf.toNat?
     let frames ← takeFramesC nf rest
     match Agc.init tg mg n tri tfa with
     | .error _ => some "ERR"
     | .ok (p, s) =>
       let (_, outs) := frames.foldl (fun (acc : AgcState Float × List String) f =>
         let r := Agc.processC p acc.1 f
-        (r.1, (fmtCxArr (decimC dec r.2.2)) :: (fmtFloatArr (decim dec r.2.1)) :: acc.2)) (s, [])
+        let o := if sel == 0 then fmtFloatArr (decim dec r.2.1) else if sel == 1 then fmtCxArr (decimC dec r.2.2)
+                 else fmtFloatArr (decim dec (r.2.1.map Float.log))
+        (r.1, o :: acc.2)) (s, [])
       some (String.intercalate " " outs.reverse)
   | _ => none
 
